@@ -226,42 +226,7 @@ def terminal(ctx: Ctx):
     """D7: default terminal transitions go through transition_previous_to_next; every activity's update()
     is default_update; full => leave the plug; plug free => leave the queue for the same station/plug."""
     repo = ctx.repo
-    du = repo.func(VS, "VehicleStateABC.default_update")
-    ps = flow.paths(du.node)
-    sim, env, st = du.params[1:4]
-    trans = flow.pat(f"entity_state_ops.transition_previous_to_next({sim}, {env}, {st}, {st}._default_terminal_state({sim}, {env})[1])")
-    cond = flow.pat(f"{st}._has_reached_terminal_state_condition({sim}, {env})")
-    n = 0
-    for p in ps:
-        if p.kind != "return":
-            continue
-        facts = [(ast.dump(a), pol) for a, pol in p.facts()]
-        term = (ast.dump(cond), True) in facts
-        nonterm = (ast.dump(cond), False) in facts
-        k = flow.classify_result(p.value)
-        if k == "delegate":
-            n += 1
-            if term:
-                has = any(flow.same(c, trans) for c in flow.calls_in(p.value, "transition_previous_to_next"))
-                perf = isinstance(p.value, ast.Call) and isinstance(p.value.func, ast.Attribute) and p.value.func.attr == "_perform_update"
-                ctx.check(has and perf, "D7", "ORD.terminal", "default_update: terminal condition => transition_previous_to_next(state -> default terminal state), then the new state's update",
-                          du, p.end, why_bad=f"terminal path returns {flow.dump(p.value)[:200]}", construct="default_update:terminal-shape")
-            elif nonterm:
-                good = flow.same(p.value, flow.pat(f"{st}._perform_update({sim}, {env})"))
-                ctx.check(good, "D7", "ORD.terminal", "default_update: otherwise the current state's _perform_update on the same sim", du, p.end,
-                          why_bad=f"returns {flow.dump(p.value)[:200]}", construct="default_update:nonterminal-shape")
-            else:
-                ctx.violation("D7", "ORD.terminal", "default_update result not guarded by the terminal condition", du, p.end,
-                              why="path does not test _has_reached_terminal_state_condition", construct="default_update:unguarded")
-    ctx.require(n >= 2, "default_update: expected a terminal and a non-terminal delegate path")
-    for sc in states.state_classes(repo):
-        up = repo.method(sc.cls, "update")
-        ctx.require(up is not None, f"{sc.name}.update vanished")
-        pp = flow.paths(up.node)
-        good = len(pp) == 1 and pp[0].kind == "return" and isinstance(pp[0].value, ast.Call) and flow.match(
-            "M_c.default_update(M_sim, M_env, self)", pp[0].value) is not None and flow.dump(pp[0].value.args[0]) == up.params[1]
-        ctx.check(good, "D7", "ORD.terminal", f"{sc.name}.update is default_update(sim, env, self)", up,
-                  why_bad="update() does not delegate to default_update with its own sim and self", construct=f"{sc.name}.update:shape")
+    rules.rule_default_update(ctx, "D7")
     # charging: full => terminal; target state
     for cname, target, tpat in (("ChargingStation", "Idle", "Idle.build(self.vehicle_id)"),
                                 ("ChargingBase", "ReserveBase", "ReserveBase.build(self.vehicle_id, self.base_id)")):
